@@ -62,6 +62,40 @@ def filter_empty(args: dict, meta: dict, info: dict):
             logger.debug("removeing empty fields %s", val)
 
 
+def _assign(dic: dict, key: str, val):
+    """
+    Assign val to key, placing a new key in bencode (raw byte) key order.
+
+    Existing keys keep their position so the untouched part of the
+    dictionary encodes to the same bytes as before.
+
+    Parameters
+    ----------
+    dic : dict
+        Meta or info dictionary.
+    key : str
+        Field name.
+    val : Any
+        New value of the field.
+    """
+
+    def raw(item):
+        return item.encode("utf-8") if isinstance(item, str) else bytes(item)
+
+    if key in dic:
+        dic[key] = val
+        return
+    items = list(dic.items())
+    index = len(items)
+    for i, (other, _) in enumerate(items):
+        if raw(other) > raw(key):
+            index = i
+            break
+    items.insert(index, (key, val))
+    dic.clear()
+    dic.update(items)
+
+
 def edit_torrent(metafile: str, args: dict) -> dict:
     """
     Edit the properties and values in a torrent meta file.
@@ -84,37 +118,37 @@ def edit_torrent(metafile: str, args: dict) -> dict:
     filter_empty(args, meta, info)
 
     if "comment" in args:
-        info["comment"] = args["comment"]
+        _assign(info, "comment", args["comment"])
 
     if "source" in args:
-        info["source"] = args["source"]
+        _assign(info, "source", args["source"])
 
     if "private" in args:
-        info["private"] = 1
+        _assign(info, "private", 1)
 
     if "announce" in args:
         val = args.get("announce", None)
         if isinstance(val, str):
             vallist = val.split()
-            meta["announce"] = vallist[0]
-            meta["announce-list"] = [vallist]
+            _assign(meta, "announce", vallist[0])
+            _assign(meta, "announce-list", [vallist])
         elif isinstance(val, list):
-            meta["announce"] = val[0]
-            meta["announce-list"] = [val]
+            _assign(meta, "announce", val[0])
+            _assign(meta, "announce-list", [val])
 
     if "url-list" in args:
         val = args.get("url-list")
         if isinstance(val, str):
-            meta["url-list"] = val.split()
+            _assign(meta, "url-list", val.split())
         elif isinstance(val, list):
-            meta["url-list"] = val
+            _assign(meta, "url-list", val)
 
     if "httpseeds" in args:
         val = args.get("httpseeds")
         if isinstance(val, str):
-            meta["httpseeds"] = val.split()
+            _assign(meta, "httpseeds", val.split())
         elif isinstance(val, list):
-            meta["httpseeds"] = val
+            _assign(meta, "httpseeds", val)
 
     meta["info"] = info
     os.remove(metafile)
